@@ -190,6 +190,10 @@ Definition hist_fused : list zop := [
   OPeek 0 SMax;
   OPop 0 SMax;
   OPop 0 SMin;
+  OPeek 2 SMax;
+  OFuse 1 (OClear 2);                      (* the Drop of the first priority panics *)
+  OLen 2;
+  OPush 2 (9, 9) 1;
   OPeek 2 SMax
 ].
 
@@ -240,7 +244,7 @@ Example run_history_all_valid :
 Proof. vm_compute. reflexivity. Qed.
 
 (** ** the fused history, by the C10 theorem *)
-Example unwound_fires : unwound_count = 13%nat.
+Example unwound_fires : unwound_count = 14%nat.
 Proof. vm_compute. reflexivity. Qed.
 
 Lemma adm_fuse_hist_cons (mode : nat) (m m' : zmachine) o h :
